@@ -81,12 +81,13 @@ c09_pair!(c09_dev_i32_2x3_frev_step, 2, 3, 6, 4, 2, 10);
 c09_pair!(c09_dev_i32_2x3_c_c, 2, 3, 6, 0, 0, 10);
 
 /// The f64-valued routines are the documented functions of the integer results. Small 1-D
-/// operands (stride 2 vs reversed), so that the float reasoning stays cheap. CBMC's sqrt model is
-/// accurate to an ulp only (and is not a function), so the sqrt forms are asserted through their
-/// defining relation.
-//@ prop=C09 tier=quick mem=4 timeout=2400 inst="l2_dist / mean_abs_err / mean_sq_err / root_mean_sq_err on ArrayView1<i32> len 3 (stride 2 vs reversed)" bounds="all i8-range payloads; unwind 10"
+/// operands (stride 2 vs reversed). CBMC's sqrt model is accurate to an ulp only (and is not a
+/// function), and a float multiplication in the oracle (r * r) made the SAT problem time out, so the
+/// sqrt forms are pinned to the integer bracket [k, k+1) with k = floor(sqrt(v)) found by an integer
+/// loop (4-bit payloads keep that loop short); the division forms are bit-exact.
+//@ prop=C09 tier=quick mem=4 timeout=2400 inst="l2_dist / mean_abs_err / mean_sq_err / root_mean_sq_err on ArrayView1<i32> len 3 (stride 2 vs reversed)" bounds="payloads in -8..=7; unwind 34"
 #[kani::proof]
-#[kani::unwind(10)]
+#[kani::unwind(34)]
 fn c09_float_forms_i32_l3() {
     let pa: [i8; 7] = kani::any();
     let pb: [i8; 3] = kani::any();
@@ -94,8 +95,10 @@ fn c09_float_forms_i32_l3() {
     let mut bb = [0i32; 3];
     let mut k = 0;
     while k < 7 {
+        kani::assume(pa[k] >= -8 && pa[k] <= 7);
         ba[k] = pa[k] as i32;
         if k < 3 {
+            kani::assume(pb[k] >= -8 && pb[k] <= 7);
             bb[k] = pb[k] as i32;
         }
         k += 1;
@@ -114,36 +117,45 @@ fn c09_float_forms_i32_l3() {
     let (a, b) = (av.view(), bv.view());
     assert!(a.mean_abs_err(&b) == Ok(l1 as f64 / 3.0), "mean_abs_err == l1 / n");
     assert!(a.mean_sq_err(&b) == Ok(sq as f64 / 3.0), "mean_sq_err == sq_l2 / n");
+    // k = floor(sqrt(sq)), k3 = floor(sqrt(sq / 3)); sq <= 3 * 15^2 = 675
+    let mut kk = 0i32;
+    while (kk + 1) * (kk + 1) <= sq {
+        kk += 1;
+    }
+    let mut k3 = 0i32;
+    while 3 * (k3 + 1) * (k3 + 1) <= sq {
+        k3 += 1;
+    }
     let l2 = a.l2_dist(&b).unwrap();
-    assert!(l2 >= 0.0 && (l2 * l2 - sq as f64).abs() <= 1.0e-9 * (sq as f64), "l2_dist == sqrt(sq_l2_dist)");
+    assert!(l2 + 1.0e-9 >= kk as f64 && l2 < (kk + 1) as f64, "l2_dist lies in [floor(sqrt(sq)), floor(sqrt(sq)) + 1)");
     let rmse = a.root_mean_sq_err(&b).unwrap();
-    assert!(rmse >= 0.0 && (rmse * rmse - sq as f64 / 3.0).abs() <= 1.0e-9 * (sq as f64 / 3.0), "rmse == sqrt(mse)");
-    kani::cover!(pa[1] == 100 && pb[2] == -100, "W: large difference at the first logical position");
+    assert!(rmse + 1.0e-9 >= k3 as f64 && rmse < (k3 + 1) as f64, "rmse lies in [floor(sqrt(mse)), floor(sqrt(mse)) + 1)");
+    kani::cover!(pa[1] == 7 && pb[2] == -8, "W: large difference at the first logical position");
 }
 
-/// Ownership kinds: shared (ArcArray) vs copy-on-write view vs owned, 1-D, i64 payloads from i16.
-//@ prop=C09,C20:thorough tier=quick mem=4 timeout=1800 inst="ArcArray1<i64> vs CowArray<i64> (view of a reversed stride-2 lane) vs Array1" bounds="len 3, i16-range payloads; unwind 8" cbmc="--unwindset memcmp.0:33"
+/// Ownership kinds: shared (ArcArray) vs copy-on-write view vs owned, 1-D.
+//@ prop=C09,C20:thorough tier=quick mem=4 timeout=1800 inst="ArcArray1<i32> vs CowArray<i32> (view of a reversed stride-2 lane) vs Array1" bounds="len 3, i8-range payloads; unwind 8"
 #[kani::proof]
 #[kani::unwind(8)]
-fn c09_deviation_ownership_i64() {
-    let pa: [i16; 3] = kani::any();
-    let pb: [i16; 7] = kani::any();
-    let va = [pa[0] as i64, pa[1] as i64, pa[2] as i64];
-    let mut bufb = [0i64; 7];
+fn c09_deviation_ownership_i32() {
+    let pa: [i8; 3] = kani::any();
+    let pb: [i8; 7] = kani::any();
+    let va = [pa[0] as i32, pa[1] as i32, pa[2] as i32];
+    let mut bufb = [0i32; 7];
     let mut k = 0;
     while k < 7 {
-        bufb[k] = pb[k] as i64;
+        bufb[k] = pb[k] as i32;
         k += 1;
     }
     let vb = [bufb[pos1(4, 3, 0)], bufb[pos1(4, 3, 1)], bufb[pos1(4, 3, 2)]];
-    let a: ArcArray<i64, Ix1> = Array1::from(va.to_vec()).into_shared();
+    let a: ArcArray<i32, Ix1> = Array1::from(va.to_vec()).into_shared();
     let a2 = a.clone(); // shared storage
     let bview = carve1(&mut bufb, 4, 3);
-    let b: CowArray<'_, i64, Ix1> = CowArray::from(bview.view());
+    let b: CowArray<'_, i32, Ix1> = CowArray::from(bview.view());
     let mut eq = 0usize;
-    let mut l1 = 0i64;
-    let mut sq = 0i64;
-    let mut linf = 0i64;
+    let mut l1 = 0i32;
+    let mut sq = 0i32;
+    let mut linf = 0i32;
     let mut k = 0;
     while k < 3 {
         let d = va[k] - vb[k];
@@ -163,7 +175,7 @@ fn c09_deviation_ownership_i64() {
     assert!(a2.sq_l2_dist(&b) == Ok(sq) && a.linf_dist(&b) == Ok(linf));
     let owned = b.to_owned();
     assert!(a.l1_dist(&owned) == Ok(l1) && owned.count_neq(&a) == Ok(3 - eq));
-    kani::cover!(pa[0] == 32767 && pb[5] == -32768, "W: extreme distance at the first logical position");
+    kani::cover!(pa[0] == 127 && pb[5] == -128, "W: extreme distance at the first logical position");
 }
 
 /// f32 with small-integer payloads (every partial sum exact): exact results expected; and with
